@@ -146,8 +146,8 @@ const HARNESSES: &[HarnessDef] = &[
     HarnessDef { name: "connection", entry: "simulator::connection::SimulatedConnection::new(seed) with a pipeline drawn from DeterministicRng(seed)", presets: &["batched", "unbatched", "partial_reads"], seeds: (8, 64) },
     HarnessDef { name: "streaming", entry: "streaming::dst::StreamingDSTHarness::new(StreamingDSTConfig::<preset>(seed)); run(300); check_invariants (current-thread tokio runtime, paused clock)", presets: &["new", "calm", "moderate", "chaos"], seeds: (8, 64) },
     HarnessDef { name: "compaction", entry: "streaming::compaction_dst::CompactionDSTHarness; run(200); check_invariants (current-thread tokio runtime, paused clock)", presets: &["new", "calm", "aggressive", "chaos"], seeds: (8, 64) },
-    HarnessDef { name: "streaming_realtime", entry: "as streaming, but on a current-thread tokio runtime with the REAL clock: the simulated store latencies (0.1-100 ms per call) really elapse", presets: &["moderate", "chaos"], seeds: (2, 8) },
-    HarnessDef { name: "compaction_realtime", entry: "as compaction, real clock", presets: &["new", "chaos"], seeds: (2, 8) },
+    HarnessDef { name: "streaming_realtime", entry: "as streaming, but on a current-thread tokio runtime with the REAL clock: the simulated store latencies (0.1-100 ms per call) really elapse", presets: &["moderate", "chaos"], seeds: (0, 4) },
+    HarnessDef { name: "compaction_realtime", entry: "as compaction, real clock", presets: &["new", "chaos"], seeds: (0, 4) },
     HarnessDef { name: "wal", entry: "streaming::wal_dst::WalDSTHarness::new(seed, WalDSTConfig::<preset>()).run()", presets: &["baseline", "crash_only", "chaos"], seeds: (8, 64) },
 ];
 
@@ -1209,14 +1209,23 @@ fn main() {
             }
         }
     }
-    // VERIF_SEED only rotates the visiting order
-    if !cases.is_empty() {
-        let r = (args.seed as usize) % cases.len();
-        cases.rotate_left(r);
+    // Slow (real-clock) cases first and one per work unit (par_map chunks by len/(8n): a stage of
+    // <= 128 items has chunk 1), then the fast bulk. VERIF_SEED only rotates the visiting order.
+    let (mut slow, mut fast): (Vec<Case>, Vec<Case>) = cases.into_iter().partition(|c| c.h.ends_with("_realtime"));
+    for v in [&mut slow, &mut fast] {
+        if !v.is_empty() {
+            let r = (args.seed as usize) % v.len();
+            v.rotate_left(r);
+        }
     }
     let es = envs();
     let workers = par::workers().min(16);
-    let reports = par::par_map_n(workers, &cases, |_, c| run_case(&shim, c, &es));
+    let mut reports = Vec::new();
+    for stage in slow.chunks(128) {
+        reports.extend(par::par_map_n(workers, stage, |_, c| run_case(&shim, c, &es)));
+    }
+    reports.extend(par::par_map_n(workers, &fast, |_, c| run_case(&shim, c, &es)));
+    let cases: Vec<Case> = slow.into_iter().chain(fast).collect();
 
     let mut children = 0u64;
     let mut nontrivial: BTreeSet<(String, String, u64)> = BTreeSet::new();
@@ -1283,7 +1292,7 @@ fn main() {
         "stripped_fields_note": "nothing is stripped: no result struct of the covered harnesses carries a wall-clock duration or an address (checked field by field in the sources: all time fields are VirtualTime / Lamport / simulated ms); HashMap-typed result fields (CRDTDSTResult.ops_per_replica, SimulationResult.operations_by_type, BuggifyStats.checks/triggers, CrashStats.crashes_by_reason) are rendered sorted by key because a map has no order to reproduce",
         "samples": samples,
         "exhaustive": true,
-        "seeds_bound": if args.tier == Tier::Quick { "S=8 (streaming, compaction: 4)" } else { "S=64 (streaming, compaction: 32)" },
+        "seeds_bound": if args.tier == Tier::Quick { "S=8 for every harness and preset; the real-clock variants of streaming/compaction are thorough-only" } else { "S=64 for every harness and preset; real-clock variants streaming_realtime/compaction_realtime: 4 seeds x 2 presets (about 13 s per child)" },
     });
     rep.finish(
         coverage,
